@@ -106,8 +106,24 @@ def judge_path(run, cfg, g, path, steps, res, bodies):
 
 
 def normalise_body(b):
+    """event ids vary, and the order of listed items is not part of any statement"""
     import re
-    return re.sub(r"id: evt-[0-9]+-[0-9]+", "id: evt", b)
+    b = re.sub(r"id: evt-[0-9]+-[0-9]+", "id: evt", b)
+    out = []
+    for line in b.split("\n"):
+        prefix, payload = ("data: ", line[6:]) if line.startswith("data: ") else ("", line)
+        try:
+            m = json.loads(payload)
+            res = m.get("result") if isinstance(m, dict) else None
+            if isinstance(res, dict):
+                for key, by in (("tools", "name"), ("prompts", "name"), ("resources", "uri")):
+                    if isinstance(res.get(key), list):
+                        res[key] = sorted(res[key], key=lambda x: json.dumps(x.get(by) if isinstance(x, dict) else x))
+            line = prefix + json.dumps(m, sort_keys=True)
+        except ValueError:
+            pass
+        out.append(line)
+    return "\n".join(out)
 
 
 def check_ids(run, ids):
